@@ -90,6 +90,15 @@ class PyLib:
             L.append('  int mut_%s(int x);' % c['name'])
             L.append('  int scale_%s(int factor);' % c['name'])
             L.append('  int scale_%s(int factor, int offset);' % c['name'])
+            # const / non-const pairs (C++ picks by the constness of the object) and a defaulted overload sharing its lowest arity with a sibling
+            L.append('  int which_%s();' % c['name'])
+            L.append('  int which_%s() const;' % c['name'])
+            L.append('  int tagc_%s(int x) const;' % c['name'])
+            L.append('  int tagc_%s(int x);' % c['name'])
+            L.append('  int dk_%s(int a, int b = 1);' % c['name'])
+            L.append('  int dk_%s(const std::string &s);' % c['name'])
+            L.append('  static int sdk_%s(const std::string &s);' % c['name'])
+            L.append('  static int sdk_%s(int a, int b = 1, int c = 2);' % c['name'])
             for s in c['ovsets']:
                 for j, o in enumerate(s['overloads']):
                     L.append('  int %s(%s);' % (s['name'], ', '.join(self.ctype(cat, cls, i, j % 2) for i, (cat, cls) in enumerate(o['vec']))))
@@ -141,6 +150,14 @@ class PyLib:
             L.append('int %s::mut_%s(int x) { return 2; }' % (n, n))
             L.append('int %s::scale_%s(int factor) { return factor * 10; }' % (n, n))
             L.append('int %s::scale_%s(int factor, int offset) { return factor * 10 + offset; }' % (n, n))
+            L.append('int %s::which_%s() { return 1; }' % (n, n))
+            L.append('int %s::which_%s() const { return 2; }' % (n, n))
+            L.append('int %s::tagc_%s(int x) const { return 20 + x; }' % (n, n))
+            L.append('int %s::tagc_%s(int x) { return 10 + x; }' % (n, n))
+            L.append('int %s::dk_%s(int a, int b) { return a * 10 + b; }' % (n, n))
+            L.append('int %s::dk_%s(const std::string &s) { return 1000 + (int)s.size(); }' % (n, n))
+            L.append('int %s::sdk_%s(const std::string &s) { return 2000 + (int)s.size(); }' % (n, n))
+            L.append('int %s::sdk_%s(int a, int b, int c) { return a * 100 + b * 10 + c; }' % (n, n))
             L.append('%s::Color %s::next_color(Color c) const { return c == red ? green : (c == green ? blue : red); }' % (n, n))
             for s in c['ovsets']:
                 for j, o in enumerate(s['overloads']):
